@@ -173,3 +173,237 @@ def replay_special(prop, path, d):
         return replay_c17(path, d)
     print("no special replay for", d["flavour"])
     return 2
+
+
+# ------------------------------------------------------------------------------------------ aux programs
+AUX = os.path.join(VERIF, "aux")
+
+
+def _aux_build_run(name, std, cxx="g++", extra=("-O1", "-fsanitize=address", "-DNDEBUG")):
+    """Compile aux/<name>.cpp against /repo's header (cached by tree key) and run it.
+    Returns (compiled_ok, compiler_output, run_rc, run_stdout)."""
+    key = B.tree_key()
+    h = hashlib.sha256(open(os.path.join(AUX, name + ".cpp"), "rb").read()).hexdigest()[:10]
+    bdir = os.path.join(B.CACHE, "k-" + key, "aux")
+    os.makedirs(bdir, exist_ok=True)
+    exe = os.path.join(bdir, "%s-%s-%s-%s" % (name, cxx.replace("+", "x"), std, h))
+    log = exe + ".log"
+    if not os.path.exists(exe):
+        cmd = [cxx, "-std=c++" + std, "-w"] + list(extra) + ["-I" + B.include_dir(),
+                                                              os.path.join(AUX, name + ".cpp"), "-o", exe + ".tmp"]
+        p = subprocess.run(cmd, stdout=subprocess.PIPE, stderr=subprocess.STDOUT, text=True)
+        with open(log, "w") as f:
+            f.write(" ".join(cmd) + "\n" + p.stdout)
+        if p.returncode != 0:
+            return False, p.stdout, None, ""
+        os.replace(exe + ".tmp", exe)
+    rc, out, err = D.run_proc([exe], timeout=600)
+    return True, "", rc, out
+
+
+def _write_aux_replay(prop, name, std, cxx, oracle, line, detail):
+    os.makedirs(os.path.join(VERIF, "replays"), exist_ok=True)
+    tag = hashlib.sha256(line.encode()).hexdigest()[:10]
+    path = os.path.join(VERIF, "replays", "%s-%s-%s.replay" % (prop, name, tag))
+    with open(path, "w") as f:
+        f.write("svsim-replay 1\nproperty %s\nflavour special:aux\nprogram %s\nstd %s\ncompiler %s\n"
+                "expect %s\nline %s\n" % (prop, name, std, cxx, oracle, line))
+        f.write("detail " + detail.replace("\n", "\ndetail ") + "\n")
+    return path
+
+
+def _first_errors(text, n=25):
+    lines = [l for l in text.splitlines() if "error" in l or "required from" in l]
+    return "\n".join(lines[:n])
+
+
+def run_aux(prop, name, stds, fail_prefix, oracle_fail, oracle_compile, summary_prefix, cxxs=("g++",)):
+    """Returns (violations, coverage-dict)."""
+    violations = []
+    total_cases = 0
+    runs = []
+    from concurrent.futures import ThreadPoolExecutor
+    combos = [(cxx, std) for cxx in cxxs for std in stds]
+    with ThreadPoolExecutor(max_workers=8) as ex:
+        results = list(ex.map(lambda cs: _aux_build_run(name, cs[1], cs[0]), combos))
+    for (cxx, std), (ok, cout, rc, out) in zip(combos, results):
+        if True:
+            if not ok:
+                line = "%s does not compile as C++%s with %s" % (name, std, cxx)
+                path = _write_aux_replay(prop, name, std, cxx, oracle_compile, line, _first_errors(cout))
+                violations.append((None, _special_violation(prop, oracle_compile, name, line + ": " + _first_errors(cout, 3), path)))
+                runs.append(dict(program=name, std=std, compiler=cxx, result="compile error"))
+                continue
+            fails = [l for l in out.splitlines() if l.startswith(fail_prefix)]
+            summ = [l for l in out.splitlines() if l.startswith(summary_prefix)]
+            if summ:
+                for tok in summ[0].split():
+                    if tok.lower().startswith("cases=") or tok.lower().startswith("rows"):
+                        pass
+                nums = [int(t.split("=")[1]) for t in summ[0].split() if "=" in t and t.split("=")[1].isdigit()]
+                if not nums:
+                    nums = [int(t) for t in summ[0].split() if t.isdigit()]
+                total_cases += nums[0] if nums else 0
+            elif rc not in (0, 1):
+                line = "%s crashed (rc=%s) as C++%s with %s" % (name, rc, std, cxx)
+                path = _write_aux_replay(prop, name, std, cxx, oracle_fail, line, out[-2000:])
+                violations.append((None, _special_violation(prop, oracle_fail, name, line, path)))
+            for l in fails[:3]:
+                path = _write_aux_replay(prop, name, std, cxx, oracle_fail, l, "C++%s %s" % (std, cxx))
+                violations.append((None, _special_violation(prop, oracle_fail, l.split()[1] if len(l.split()) > 1 else name,
+                                                            l + " (C++%s, %s)" % (std, cxx), path)))
+            runs.append(dict(program=name, std=std, compiler=cxx, failures=len(fails),
+                             summary=summ[0] if summ else ""))
+    return violations, dict(cases=total_cases, runs=runs)
+
+
+def replay_aux(prop, path):
+    d = {}
+    with open(path) as f:
+        for line in f:
+            k, _, v = line.rstrip("\n").partition(" ")
+            if k in ("program", "std", "compiler", "expect", "line"):
+                d[k] = v
+    ok, cout, rc, out = _aux_build_run(d["program"], d["std"], d["compiler"])
+    if not ok:
+        print(_first_errors(cout, 12))
+        if d["expect"].endswith(".compile"):
+            print("VIOLATION property=%s replay=%s" % (prop, path))
+            return 1
+        print("[replay] the program no longer compiles (a different failure)")
+        return 2
+    if d["expect"].endswith(".compile"):
+        print("[replay] %s compiles now" % d["program"])
+        return 0
+    if d["line"] in out.splitlines():
+        print(d["line"])
+        print("VIOLATION property=%s replay=%s" % (prop, path))
+        return 1
+    print("[replay] %s no longer reports: %s" % (d["program"], d["line"]))
+    return 0
+
+
+# ------------------------------------------------------------------------------------------ C13
+def _twin_traces(binary, ua, ub, world, ops):
+    return _trace_of(binary, ua, world, ops), _trace_of(binary, ub, world, ops)
+
+
+def aux_prebuild():
+    """setup: compile the auxiliary programs of the quick tier."""
+    from concurrent.futures import ThreadPoolExecutor
+    jobs = [(n, std) for n in ("conv_grid", "archetypes", "noexcept_table") for std in ("11", "17", "20")]
+    with ThreadPoolExecutor(max_workers=9) as ex:
+        list(ex.map(lambda j: _aux_build_run(j[0], j[1]), jobs))
+
+
+def c13(prop, tier, seed, known):
+    q = tier == "quick"
+    violations = []
+    cov = {}
+    v1, c1 = run_aux(prop, "conv_grid", ["11", "17", "20"] if q else ["11", "14", "17", "20", "2b"],
+                     "CONVFAIL", "conv.value", "conv.compile", "CONV", ("g++",) if q else ("g++", "clang++"))
+    v2, c2 = run_aux(prop, "archetypes", ["11", "17", "20"] if q else ["11", "14", "17", "20", "2b"],
+                     "ARCHFAIL", "arch.value", "arch.compile", "ARCH", ("g++",) if q else ("g++", "clang++"))
+    violations += v1 + v2
+    cov["conversion_grid"] = c1
+    cov["archetypes"] = c2
+    # twin replay
+    binary = B.build("asan20", UV.UNIVERSES)
+    runs = 20000 if q else 200000
+    args = ["--prop", "13", "--faults", "0", "--twin", "1", "--digests", "1", "--nops", "24" if q else "40"]
+    twin_cov = []
+    compared = 0
+    mism = 0
+    for tc, nm in UV.TWINS:
+        ua = [u for u in UV.UNIVERSES if u["name"] == tc]
+        ub = [u for u in UV.UNIVERSES if u["name"] == nm]
+        ra = D.run_stage(binary, "asan20", ua, "storm", runs, seed, args)
+        rb = D.run_stage(binary, "asan20", ub, "storm", runs, seed, args)
+        da = {s: (h, i) for (u, s), (h, i) in ra.digests.items()}
+        db = {s: (h, i) for (u, s), (h, i) in rb.digests.items()}
+        bad = [(s, da[s][1]) for s in da if s in db and da[s][0] != db[s][0]]
+        compared += len(da)
+        mism += len(bad)
+        twin_cov.append(dict(trivially_copyable=tc, non_trivial=nm, histories=len(da), mismatches=len(bad)))
+        for s, idx in sorted(bad, key=lambda x: x[1])[:1]:
+            world, ops = _history_of(binary, tc, idx, seed, args)
+            ta, tb = _twin_traces(binary, tc, nm, world, ops)
+            keep = ops
+            for n in range(1, len(ops) + 1):
+                xa, xb = _twin_traces(binary, tc, nm, world, ops[:n])
+                if [l.split(" ", 2)[-1] for l in xa] != [l.split(" ", 2)[-1] for l in xb] or xa[-1:] != xb[-1:]:
+                    if _digest_line(xa) != _digest_line(xb):
+                        keep = ops[:n]
+                        break
+            i = 0
+            while i < len(keep) - 1:
+                cand = keep[:i] + keep[i + 1:]
+                xa, xb = _twin_traces(binary, tc, nm, world, cand)
+                if _digest_line(xa) != _digest_line(xb):
+                    keep = cand
+                else:
+                    i += 1
+            xa, xb = _twin_traces(binary, tc, nm, world, keep)
+            msg = "twin traces differ: %s: [%s] vs %s: [%s]" % (tc, " | ".join(l for l in xa if l.startswith("T "))[-300:],
+                                                              nm, " | ".join(l for l in xb if l.startswith("T "))[-300:])
+            os.makedirs(os.path.join(VERIF, "replays"), exist_ok=True)
+            path = os.path.join(VERIF, "replays", "C13-twin-%s-%s.replay" % (tc, s))
+            with open(path, "w") as f:
+                f.write("svsim-replay 1\nproperty C13\nuniverse %s\nflavour special:twin\ntwin %s %s\n"
+                        "expect twin.trace\nnote %s\n%s\n" % (tc, tc, nm, msg.replace("\n", " "), world))
+                for o in keep:
+                    f.write(o + "\n")
+            opk = keep[-1].split()[1] if keep else "?"
+            violations.append((None, _special_violation(prop, "twin.trace", opk, msg, path, tc)))
+    cov["twin_replay"] = dict(pairs=twin_cov, histories_compared=compared, mismatches=mism)
+    cov["extra_evaluations"] = compared + c1["cases"] + c2["cases"]
+    return dict(coverage=cov, violations=violations)
+
+
+def _digest_line(trace):
+    return [l.split()[3] for l in trace if l.startswith("DIGEST")]
+
+
+SPECIALS["C13"] = c13
+
+
+def replay_twin(prop, path, d):
+    tw = None
+    with open(path) as f:
+        for line in f:
+            if line.startswith("twin "):
+                tw = line.split()[1:3]
+    binary = B.build("asan20", UV.UNIVERSES)
+    xa, xb = _twin_traces(binary, tw[0], tw[1], d["world"], d["ops"])
+    for a, b in zip(xa, xb):
+        print(a)
+        print("   " + b)
+    if _digest_line(xa) != _digest_line(xb):
+        print("VIOLATION property=%s replay=%s" % (prop, path))
+        return 1
+    print("[replay] the twins agree on this history")
+    return 0
+
+
+# ------------------------------------------------------------------------------------------ C18
+def c18(prop, tier, seed, known):
+    q = tier == "quick"
+    v, c = run_aux(prop, "noexcept_table", ["11", "17", "20"] if q else ["11", "14", "17", "20", "2b"],
+                   "MISMATCH", "noexcept.table", "noexcept.table_compile", "ROWS",
+                   ("g++",) if q else ("g++", "clang++"))
+    # a table that does not compile is a machinery problem unless a declaration disappeared
+    return dict(coverage=dict(noexcept_table=c, extra_evaluations=c["cases"]), violations=v)
+
+
+SPECIALS["C18"] = c18
+
+
+def replay_special(prop, path, d):  # noqa: F811
+    if d["flavour"] == "special:c17":
+        return replay_c17(path, d)
+    if d["flavour"] == "special:aux":
+        return replay_aux(prop, path)
+    if d["flavour"] == "special:twin":
+        return replay_twin(prop, path, d)
+    print("no special replay for", d["flavour"])
+    return 2
